@@ -125,3 +125,20 @@ func TestVerifCLIReplayDir(t *testing.T) {
 		}
 	}
 }
+
+// TestVerifReplay replays one saved case (VERIF_REPLAY) through the CLI engine.
+func TestVerifReplay(t *testing.T) {
+	ev := evid.For(c15Prop)
+	var c c15.Case
+	ok, err := evid.LoadReplay(&c)
+	if !ok {
+		t.Skip("no VERIF_REPLAY")
+	}
+	if err != nil {
+		t.Fatal(err)
+	}
+	v := evid.Guard(func() *evid.Violation { return c15Check(c, ev) })
+	if ev.Report(v, c) {
+		t.Fatalf("%v", v)
+	}
+}
